@@ -40,6 +40,32 @@ type peer struct {
 	got    []packet.Message
 	nextID packet.ID
 	eof    chan struct{}
+	hold   bool             // withhold the acknowledgements of received publishes (mu)
+	held   []packet.Generic // withheld acknowledgements
+}
+
+// ack sends (or, in hold mode, keeps) the acknowledgement of a received PUBLISH
+func (p *peer) ack(pkt packet.Generic) {
+	p.mu.Lock()
+	if p.hold {
+		p.held = append(p.held, pkt)
+		p.mu.Unlock()
+		return
+	}
+	p.mu.Unlock()
+	_ = p.conn.Send(pkt, false)
+}
+
+// releaseHeld leaves hold mode and sends what was withheld
+func (p *peer) releaseHeld() {
+	p.mu.Lock()
+	p.hold = false
+	held := p.held
+	p.held = nil
+	p.mu.Unlock()
+	for _, pkt := range held {
+		_ = p.conn.Send(pkt, false)
+	}
 }
 
 func (p *peer) reader() {
@@ -57,9 +83,9 @@ func (p *peer) reader() {
 				p.mu.Unlock()
 			}
 			if v.Message.QOS == 1 {
-				_ = p.conn.Send(&packet.Puback{ID: v.ID}, false)
+				p.ack(&packet.Puback{ID: v.ID})
 			} else if v.Message.QOS == 2 {
-				_ = p.conn.Send(&packet.Pubrec{ID: v.ID}, false)
+				p.ack(&packet.Pubrec{ID: v.ID})
 			}
 		case *packet.Pubrel:
 			_ = p.conn.Send(&packet.Pubcomp{ID: v.ID}, false)
@@ -463,6 +489,50 @@ func boxScenario(c *hx.Ctx, length int) {
 	be.Close(20 * time.Millisecond)
 }
 
+// boxHeld: messages still queued in the backend when the subscriber unsubscribes.  The subscriber's inflight
+// window is 1 and it withholds its acknowledgements, so after the first delivery the following messages stay in
+// its session queue; then it unsubscribes the only matching filter, acknowledges, and everything that was
+// published while the subscription existed must still arrive.
+func boxHeld(c *hx.Ctx, f, t string, clean bool, qs []byte) {
+	boxN++
+	be := broker.NewMemoryBackend()
+	be.ClientInflightMessages = 1
+	eng := broker.NewEngine(be)
+	w := &boxWorld{c: c, k: boxN, be: be, eng: eng, peers: map[int]*peer{}}
+	c.Emit("boxstart %d", w.k)
+	w.connect(99, "mk", true, nil)
+	w.connect(1, "x", clean, nil)
+	if !w.failed {
+		w.sub(1, []subT{{"m/1", 1}, {f, 2}})
+	}
+	if !w.failed {
+		p := w.peers[1]
+		p.mu.Lock()
+		p.hold = true
+		p.mu.Unlock()
+		for i, q := range qs {
+			if w.failed {
+				break
+			}
+			w.pub(99, packet.Message{Topic: t, Payload: []byte(fmt.Sprintf("h%d-%d", i, q)), QOS: packet.QOS(q)})
+		}
+		if !w.failed {
+			w.unsub(1, []string{f})
+		}
+		p.releaseHeld()
+		if !w.failed {
+			w.drain(1)
+		}
+	}
+	c.Emit("boxend %d", w.k)
+	c.Stat("box_scenarios", 1)
+	c.Stat("box_held", 1)
+	for _, p := range w.peers {
+		_ = p.conn.Close()
+	}
+	be.Close(20 * time.Millisecond)
+}
+
 func runBox(c *hx.Ctx) {
 	if c.Replay != "" {
 		return
@@ -473,5 +543,16 @@ func runBox(c *hx.Ctx) {
 	}
 	for i := 0; i < n; i++ {
 		boxScenario(c, l)
+	}
+	// queued-while-unsubscribing scenarios
+	pairs := [][2]string{{"a/+", "a/b"}, {"#", "b"}, {"a/#", "a"}, {"a/b", "a/b"}, {"+/b", "b/b"}, {"+", "a"}, {"/a", "/a"}, {"a/", "a/"}}
+	held := 4
+	if c.Thorough() {
+		held = 32
+	}
+	for i := 0; i < held; i++ {
+		pr := pairs[(i+int(c.Seed))%len(pairs)]
+		qs := [][]byte{{1, 1, 1}, {1, 2, 1}, {2, 1, 0, 1}, {1, 0, 2}}[(i/2)%4]
+		boxHeld(c, pr[0], pr[1], i%2 == 0, qs)
 	}
 }
